@@ -250,6 +250,10 @@ func cmdSelftest(args []string) int {
 			got := len(staleErrReturns(fns[name]))
 			check("staleErrReturns/"+name, got == want, "%d stale `return nil, err` found (want %d)", got, want)
 		}
+		for name, want := range map[string]int{"loopLast": 1, "loopFirst": 0, "loopJoin": 0} {
+			got := len(errOverwrittenInLoop(fns[name]))
+			check("errOverwrittenInLoop/"+name, got == want, "%d loop-overwritten errors found (want %d)", got, want)
+		}
 	}
 
 	// 6. every rule table entry that names a function has the documented key shape
@@ -326,6 +330,33 @@ func wrapped() (*T, error) {
 }
 
 var errInvalid error
+
+func join(a, b error) error { return a }
+
+func loopLast(fs []func() error) error {
+	var err error
+	for _, f := range fs {
+		err = f()
+	}
+	return err
+}
+
+func loopFirst(fs []func() error) error {
+	for _, f := range fs {
+		if err := f(); err != nil {
+			return err
+		}
+	}
+	return nil
+}
+
+func loopJoin(fs []func() error) error {
+	var err error
+	for _, f := range fs {
+		err = join(err, f())
+	}
+	return err
+}
 `
 
 // ssaSnippet type-checks and builds SSA for an import-free snippet and returns its functions by name.
